@@ -96,20 +96,14 @@ def impl_init():
         o = c["o"]
         vals = dict(min_timestamp_scale=o["min_sc"][0] / o["min_sc"][1], max_timestamp_scale=o["max_sc"][0] / o["max_sc"][1],
                     min_timestamp_wait=o["min_wait"], max_timestamp_wait=o["max_wait"], timestamp_grace=o["grace"])
-        if (c["ts"] + c["ms"]) % 3 == 0:
-            # Options is a plain mutable dataclass: thresholds tuned in place after construction count just the same
-            opts = Options()
-            for k_, v_ in vals.items():
-                setattr(opts, k_, v_)
-        else:
-            opts = Options(**vals)
         clock["ns"] = 1_700_000_000_000_000_000
         lastp = U.scapy_from_spec(spec_of(2, c["last"], c["last_has_ts"], False))
         last = TCPPacketSignature.from_packet(parse_packet(lastp))
         clock["ns"] += c["ms"] * 1_000_000
         pkt = U.scapy_from_spec(spec_of(c["flags"], c["ts"], c["has_ts"], c["frag"]))
         try:
-            r = fingerprint_uptime(pkt, last, options=opts)
+            with U.options_as(c["ts"] + c["ms"], **vals) as kw:
+                r = fingerprint_uptime(pkt, last, **kw)
         except PacketError:
             return {"err": "PacketError"}
         if r.uptime is None:
